@@ -218,4 +218,145 @@ theorem pruneOldest_images (L : Log) (d : Dir) (i0 a n : Nat) (I : Inv L d i0 a)
     (by omega) (by rw [flatRecs_append, List.length_append]; omega)
   exact ⟨_, _, this⟩
 
+/-! ## `prune_recent` -/
+
+theorem Inv.all_clean {L : Log} {d : Dir} {i0 a : Nat} (I : Inv L d i0 a) : ∀ x ∈ d, x.2.torn = none :=
+  fun x hx => (I.hclean x hx).1
+
+/-- `prune_recent n` for a record `n` that exists (`a ≤ n ≤ e`; `a` = the oldest record still in a file): the files
+above the one holding `n` are unlinked newest first, the directory is fsynced, the new head is cut after `n` -/
+theorem pruneRecent_spec (L : Log) (d : Dir) (i0 a n : Nat) (I : Inv L d i0 a) (hn1 : a ≤ n) (hn2 : n ≤ L.endLive) :
+    ∃ M T y ny, d = (M ++ [y]) ++ T ∧ (∀ r ∈ flatRecs T, n < r.id) ∧ ny = a + (flatRecs M).length ∧ ny ≤ n ∧
+      n < ny + y.2.recs.length ∧
+      (pruneRecent L d n).effs = T.reverse.map (fun x => FsEff.unlink x.1) ++ [FsEff.dirsync] ++
+        [.setLen y.1 (recsSize (y.2.recs.take (n - ny + 1))), .fsync y.1] ∧
+      (pruneRecent L d n).dir = liveDir M y (n - ny + 1) ∧ (pruneRecent L d n).out = .ok 0 ∧
+      (pruneRecent L d n).log.endLive = n ∧ (pruneRecent L d n).log.startLive = L.startLive := by
+  have hn0 : 0 < n := by have := I.ha; omega
+  have hrec' : RecsFrom n a d := recsFrom_change_e _ n d a I.all_clean I.hrec
+  have hend := I.hend
+  obtain ⟨P, D, T, y, ny, hd, _, hTdead, hny, hnye, hey, _, _, _⟩ :=
+    open_ok L.maxSeg 1 n i0 a d (by omega) hn0 I.hi I.hseg hrec' hn1 (by omega)
+  have hd' : d = ((P ++ D) ++ [y]) ++ T := by rw [hd]; simp
+  refine ⟨P ++ D, T, y, ny, hd', hTdead, hny, hnye, hey, ?_⟩
+  have hymem : y ∈ d := by rw [hd']; simp
+  have hyids : IdsFrom ny y.2.recs := by
+    have := (recsFrom_append n (P ++ D) (y :: T) a (by rw [hd] at hrec'; simpa using hrec') (by simp)).2.2.1
+    rw [hny]; exact this
+  -- the loop
+  have hymin : (metaOf y).min ≤ n := by
+    obtain ⟨r, hr, hrid⟩ := idsFrom_get y.2.recs ny n hyids hnye hey
+    have := (I.meta_bounds y hymem r hr).1
+    omega
+  have hTmin : ∀ x ∈ (T.map metaOf).reverse, n < x.min := by
+    intro m hm
+    rw [List.mem_reverse] at hm
+    obtain ⟨x, hx, rfl⟩ := List.mem_map.mp hm
+    obtain ⟨_, ⟨r, hr, hrid⟩⟩ := I.meta_has x (by rw [hd']; simp [hx])
+    have := hTdead r (by simp only [flatRecs, List.mem_flatMap]; exact ⟨x, hx, hr⟩)
+    omega
+  have hsegsrev : L.segs.reverse = (T.map metaOf).reverse ++ metaOf y :: ((P ++ D).map metaOf).reverse := by
+    rw [I.hsegs, hd']; simp
+  have hloop : pruneRecentLoop n L.segs.reverse =
+      (metaOf y :: ((P ++ D).map metaOf).reverse, ((T.map metaOf).reverse).map (·.id)) := by
+    rw [hsegsrev]; exact pruneRecentLoop_spec n _ _ _ hTmin hymin
+  have hsegs' : (metaOf y :: ((P ++ D).map metaOf).reverse).reverse = (P ++ D).map metaOf ++ [metaOf y] := by simp
+  have heffs1 : (((T.map metaOf).reverse).map (·.id)).map FsEff.unlink = T.reverse.map (fun x => FsEff.unlink x.1) := by
+    simp [metaOf, Function.comp_def, List.map_reverse]
+  have hd1 : applyEffs d (T.reverse.map (fun x => FsEff.unlink x.1) ++ [FsEff.dirsync]) = (P ++ D) ++ [y] := by
+    rw [applyEffs_append, hd', unlink_back i0 _ _ (hd' ▸ I.hseg)]
+    rfl
+  have hsegL : SegIdsFrom i0 ((P ++ D) ++ [y]) := ((segIdsFrom_append _ T _).mp (hd' ▸ I.hseg)).1
+  have hlook : lookup ((P ++ D) ++ [y]) (metaOf y).id = some y.2 := lookup_last i0 (P ++ D) y hsegL
+  have hm : n - ny + 1 ≤ y.2.recs.length := by omega
+  have htr : truncateHead y.2 n = .ok (recsSize (y.2.recs.take (n - ny + 1))) := by
+    have := findEnd_idsFrom y.2.recs ny n 0 hyids hnye (by omega)
+    simp [truncateHead, scanRecordEnd, this]
+  have hfinal : applyEffs ((P ++ D) ++ [y]) [FsEff.setLen (metaOf y).id (recsSize (y.2.recs.take (n - ny + 1))), .fsync (metaOf y).id]
+      = liveDir (P ++ D) y (n - ny + 1) := by
+    simp only [applyEffs, List.foldl_cons, List.foldl_nil, applyEff]
+    have : (metaOf y).id = y.1 := rfl
+    rw [this, updFile_last _ (P ++ D) y _ hsegL, setLen_at_boundary y.2 _ hm]
+    rfl
+  have hne : L.segs.isEmpty = false := by rw [I.hsegs, hd']; simp
+  have hn0' : n ≠ 0 := by omega
+  have hlast : ((P ++ D).map metaOf ++ [metaOf y]).getLast? = some (metaOf y) := by simp
+  unfold pruneRecent
+  simp only [hn0', if_false, hne, Bool.false_eq_true, hloop, hsegs', heffs1, hd1, hlast, hlook, htr, hfinal]
+  simp [metaOf]
+
+/-- **crash images of `prune_recent`** (issued after the meta holds `[s', n]`): after any prefix of its effects the
+directory recovers under `[s', n]` to exactly the live records of that range -/
+theorem pruneRecent_images (L : Log) (d : Dir) (i0 a n : Nat) (I : Inv L d i0 a) (hn1 : a ≤ n) (hn2 : n ≤ L.endLive)
+    (s' : Nat) (hs' : 0 < s') (hsn : s' ≤ n) (k : Nat) :
+    ∃ i0' a', Recoverable s' n i0' a' (applyEffs d ((pruneRecent L d n).effs.take k)) ∧
+      liveOf s' n (applyEffs d ((pruneRecent L d n).effs.take k)) = liveOf s' n d := by
+  obtain ⟨M, T, y, ny, hd, hTdead, hny, hnye, hey, heffs, _, _, _, _⟩ := pruneRecent_spec L d i0 a n I hn1 hn2
+  rw [heffs]
+  have hrec' : RecsFrom n a d := recsFrom_change_e _ n d a I.all_clean I.hrec
+  have hend := I.hend
+  have R : Recoverable s' n i0 a d := ⟨hs', hsn, I.hi, I.hseg, hrec', hn1, by omega⟩
+  have hflatMy : (flatRecs (M ++ [y])).length = (flatRecs M).length + y.2.recs.length := by
+    rw [flatRecs_append, List.length_append, flatRecs_single]
+  have hnil : (flatRecs ([] : Dir)).length = 0 := rfl
+  by_cases hk1 : k ≤ T.length
+  · have htake : (T.reverse.map (fun x => FsEff.unlink x.1) ++ [FsEff.dirsync] ++
+        [FsEff.setLen y.1 (recsSize (y.2.recs.take (n - ny + 1))), FsEff.fsync y.1]).take k
+        = ((T.drop (T.length - k)).reverse).map (fun x => FsEff.unlink x.1) := by
+      rw [List.append_assoc, List.take_append_of_le_length (by simpa using hk1), ← List.map_take, List.take_reverse]
+    rw [htake]
+    have hT : T = T.take (T.length - k) ++ T.drop (T.length - k) := (List.take_append_drop _ _).symm
+    have hd3 : d = ((M ++ [y]) ++ T.take (T.length - k)) ++ T.drop (T.length - k) := by
+      rw [hd]; conv => lhs; rw [hT]
+      simp only [List.append_assoc]
+    have himg : applyEffs d (((T.drop (T.length - k)).reverse).map (fun x => FsEff.unlink x.1))
+        = (M ++ [y]) ++ T.take (T.length - k) := by
+      rw [hd3]; exact unlink_back i0 _ _ (hd3 ▸ I.hseg)
+    rw [himg]
+    obtain ⟨R', hl⟩ := trim s' n i0 a d [] ((M ++ [y]) ++ T.take (T.length - k)) (T.drop (T.length - k)) R
+      (by rw [hd3]; simp) (by intro r hr; cases hr) (fun r hr => hTdead r (mem_flatRecs_drop T _ r hr))
+      (by omega) (by rw [flatRecs_append, List.length_append, hflatMy]; omega)
+    exact ⟨_, _, R', hl⟩
+  · have hlenE : (T.reverse.map (fun x => FsEff.unlink x.1)).length = T.length := by simp
+    have himg1 : applyEffs d (T.reverse.map (fun x => FsEff.unlink x.1)) = M ++ [y] := by
+      rw [hd]; exact unlink_back i0 _ _ (hd ▸ I.hseg)
+    obtain ⟨R1, hl1⟩ := trim s' n i0 a d [] (M ++ [y]) T R (by rw [hd]; simp) (by intro r hr; cases hr) hTdead
+      (by omega) (by rw [hflatMy]; omega)
+    by_cases hk2 : k = T.length + 1
+    · have htake : (T.reverse.map (fun x => FsEff.unlink x.1) ++ [FsEff.dirsync] ++
+          [FsEff.setLen y.1 (recsSize (y.2.recs.take (n - ny + 1))), FsEff.fsync y.1]).take k
+          = T.reverse.map (fun x => FsEff.unlink x.1) ++ [FsEff.dirsync] := by
+        rw [List.take_append_of_le_length (by simp; omega), List.take_of_length_le (by simp; omega)]
+      rw [htake, applyEffs_append, himg1]
+      exact ⟨_, _, R1, hl1⟩
+    · have hk3 : T.length + 2 ≤ k := by omega
+      have himgeq : applyEffs d ((T.reverse.map (fun x => FsEff.unlink x.1) ++ [FsEff.dirsync] ++
+          [FsEff.setLen y.1 (recsSize (y.2.recs.take (n - ny + 1))), FsEff.fsync y.1]).take k)
+          = liveDir M y (n - ny + 1) := by
+        have hlenE2 : (T.reverse.map (fun x => FsEff.unlink x.1) ++ [FsEff.dirsync]).length = T.length + 1 := by simp
+        rw [List.take_append, List.take_of_length_le (by rw [hlenE2]; omega), hlenE2, applyEffs_append, applyEffs_append, himg1]
+        have hsegL : SegIdsFrom i0 (M ++ [y]) := ((segIdsFrom_append _ T _).mp (hd ▸ I.hseg)).1
+        have hm : n - ny + 1 ≤ y.2.recs.length := by omega
+        have hset : applyEff (M ++ [y]) (FsEff.setLen y.1 (recsSize (y.2.recs.take (n - ny + 1)))) = liveDir M y (n - ny + 1) := by
+          simp only [applyEff]
+          rw [updFile_last _ M y _ hsegL, setLen_at_boundary y.2 _ hm]
+          rfl
+        have hdsync : applyEffs (M ++ [y]) [FsEff.dirsync] = M ++ [y] := rfl
+        rw [hdsync]
+        obtain ⟨k3, hk3'⟩ : ∃ k3, k - (T.length + 1) = k3 + 1 := ⟨k - (T.length + 1) - 1, by omega⟩
+        rw [hk3']
+        cases k3 with
+        | zero => simp [applyEffs, hset]
+        | succ k3 =>
+          have : ([FsEff.setLen y.1 (recsSize (y.2.recs.take (n - ny + 1))), FsEff.fsync y.1]).take (k3 + 1 + 1)
+              = [FsEff.setLen y.1 (recsSize (y.2.recs.take (n - ny + 1))), FsEff.fsync y.1] := by simp
+          rw [this]
+          simp only [applyEffs, List.foldl_cons, List.foldl_nil, hset]
+          rfl
+      rw [himgeq]
+      obtain ⟨R2, hl2⟩ := cutLast s' n (i0 + ([] : Dir).length) (a + (flatRecs ([] : Dir)).length) M y R1 (by omega)
+      have hmeq : n - (a + (flatRecs ([] : Dir)).length + (flatRecs M).length) + 1 = n - ny + 1 := by omega
+      rw [hmeq] at R2 hl2
+      exact ⟨_, _, R2, by rw [hl2, hl1]⟩
+
 end Nomt.Seg
